@@ -1,6 +1,8 @@
 """C13 - non-Gaussian likelihoods: exact Gauss-Hermite rule, analytic Bernoulli marginal, log_normal_cdf.
 Spec: Quadrature.tla (exact Gaussian moments, code-shaped rule for num_locs <= 3, shape/index model of forward, likelihood x
-method x setting lattice, repeated differentiation of log_normal_cdf through one graph - part "rediff", machine of BackwardOps.tla).  Replay workers live in checks/c13_replay.py, references in checks/c13_ref.py."""
+method x setting lattice, repeated differentiation of log_normal_cdf through one graph - part "rediff", machine of BackwardOps.tla).  Part "params" carries the constraint class of every likelihood parameter as a dimension (default / GreaterThan / Interval / exp transform; constructor or
+register_constraint), part "condf" the conditional log-density and its gradient over the whole range of the function values (|f| = 1e-6 .. 1e3) for Bernoulli, Laplace, Student-t, Beta, Softmax.
+Replay workers live in checks/c13_replay.py, references in checks/c13_ref.py."""
 import os
 import random
 import re
@@ -23,6 +25,11 @@ LOCS_SETTINGS = (0, 5, 10, 40)
 BATCHES = ((), (2,), (3, 2))
 DECADES = tuple(range(-6, 3))                # likelihood parameters (and function means / variances) range over lower bound + 10^e, e in DECADES
 MIN_SPREAD = {"quick": 6, "thorough": 3}     # a batched parameter tensor mixes values at least this many decades apart
+CON_CLASSES = ("default", "gt", "interval", "exp")      # constraint classes of a likelihood parameter (Quadrature.tla ConLower / ConUpper / ConTransform)
+CON_DECADES = (-6, -1, 1)                    # exponents of the cases with a non-default constraint (10^1 < width of the interval class)
+CON_HOWS = ("ctor", "register")
+F_DECADES = tuple(range(-6, 4))              # part condf: |f| = 10^e up to 1e3
+COND_FLOOR = 36                              # torch's Categorical(probs=..) floors log-probabilities at log(eps) = -36.04
 
 
 def tla(v):
@@ -43,7 +50,7 @@ BW_MAX = 3
 BW_UP = {"quick": ["ones", "randA"], "thorough": ["ones", "randA", "randB", "unit"]}
 
 
-def write_mc(workdir, part, instances=(), tier="quick", impure=(), name=None, floor=None):
+def write_mc(workdir, part, instances=(), tier="quick", impure=(), name=None, floor=None, inline=(), cfloor=0):
     os.makedirs(workdir, exist_ok=True)
     mod = "MC_Quadrature_" + (name or part)
     with open(os.path.join(workdir, mod + ".tla"), "w") as f:
@@ -54,13 +61,16 @@ def write_mc(workdir, part, instances=(), tier="quick", impure=(), name=None, fl
         f.write("LocSetDef == {%s}\n" % ", ".join(str(k) for k in LOCS_SETTINGS))
         f.write("BatchDef == {%s}\n" % ", ".join(tla(list(b)) for b in BATCHES))
         f.write("DecDef == (%d)..(%d)\nFloorDef == %d\n" % (DECADES[0], DECADES[-1], -99 if floor is None else floor))
+        f.write("ConClsDef == {%s}\nConDecDef == {%s}\nConHowDef == {%s}\nInlineDef == {%s}\nFDecDef == (%d)..(%d)\n" % (
+            ", ".join(tla(k) for k in CON_CLASSES), ", ".join(str(e) for e in CON_DECADES), ", ".join(tla(h) for h in CON_HOWS), ", ".join(tla(list(i)) for i in inline), F_DECADES[0], F_DECADES[-1]))
         f.write("BWUpDef == {%s}\nBWImpureDef == {%s}\n====\n" % (", ".join(tla(u) for u in BW_UP[tier]), ", ".join(tla(list(i)) for i in impure)))
     cfg = os.path.join(workdir, mod + ".cfg")
-    inv = {"params": ["ParamsOK", "FuncOK", "ParamsNoFloorOK"], "moments": "MomentsOK", "rule": "RuleOK", "shapes": "ShapesOK", "lattice": "LatticeOK", "rediff": "RediffDerivOK" if impure else "RediffOK"}[part]
+    inv = {"params": ["ParamsOK", "FuncOK", "ParamsNoFloorOK", "ParamsThroughConstraintOK"], "condf": ["CondFOK", "CondNoFloorOK"], "moments": "MomentsOK", "rule": "RuleOK", "shapes": "ShapesOK", "lattice": "LatticeOK", "rediff": "RediffDerivOK" if impure else "RediffOK"}[part]
     tlc.write_cfg(cfg, spec="Spec", invariants=inv if isinstance(inv, list) else [inv],
                   constants={"Part": part, "BWMaxBwd": BW_MAX, "BWUpstreams": "<- BWUpDef", "BWImpure": "<- BWImpureDef", "Instances": "<- InstDef", "MaxDeg": 12, "RuleLattice": "<- LatDef", "ShapeDims": "<- DimsDef",
                              "ShapeRank": 2, "ShapeLocs": "<- ShLocsDef", "LocsSettings": "<- LocSetDef", "BatchShapes": "<- BatchDef",
-                             "Decades": "<- DecDef", "MinSpread": MIN_SPREAD[tier], "ParamK": 2, "ParamFloor": "<- FloorDef", "DataN": rp.DATA_N, "NumSamples": rp.NUM_SAMPLES, "DefaultLocs": 20})
+                             "Decades": "<- DecDef", "MinSpread": MIN_SPREAD[tier], "ParamK": 2, "ParamFloor": "<- FloorDef", "ConClasses": "<- ConClsDef", "ConDecades": "<- ConDecDef", "ConHows": "<- ConHowDef", "ParamInline": "<- InlineDef",
+                             "FDecades": "<- FDecDef", "CondFloor": cfloor, "DataN": rp.DATA_N, "NumSamples": rp.NUM_SAMPLES, "DefaultLocs": 20})
     return os.path.join(workdir, mod + ".tla"), cfg
 
 
@@ -95,17 +105,35 @@ def run(ck):
     insts = [dict(mn=a, sn=b, dd=d, coef=c) for (a, b, d) in LATTICE for c in coefs]
     jobs = []
     tw = max(1, min(4, core.NPROC // 3))
-    PARTS = ("moments", "rule", "shapes", "lattice", "rediff", "params")
+    PARTS = ("moments", "rule", "shapes", "lattice", "rediff", "params", "condf")
     for part in PARTS:
         mod, cfg = write_mc(wd, part, insts if part == "moments" else (), tier=ck.tier)
-        jobs.append(((mod, cfg), dict(name=PID + "/" + part, dump=True, check=False, workers=tw, timeout=900, coverage=(part not in ("rediff", "params")))))
+        jobs.append(((mod, cfg), dict(name=PID + "/" + part, dump=True, check=False, workers=tw, timeout=900, coverage=(part not in ("rediff", "params", "condf")))))
     # vacuity guard of the histories: a backward that overwrites ctx.denominator must be found, and only by a history with two passes
     mod, cfg = write_mc(wd, "rediff", (), tier=ck.tier, impure=[("lncdf", "denominator")], name="rediff_impure")
     jobs.append(((mod, cfg), dict(name=PID + "/rediff_impure", dump=False, check=False, workers=1, timeout=600, coverage=False)))
     # vacuity guard of the decades: a forward that floors its parameters at lower bound + 1e-4 (the seeded C13-r3s2) must be told apart by a case below the floor
     mod, cfg = write_mc(wd, "params", (), tier=ck.tier, name="params_floor", floor=-4)
     jobs.append(((mod, cfg), dict(name=PID + "/params_floor", dump=False, check=False, workers=1, timeout=600, coverage=False)))
+    # vacuity guard of the constraint dimension: a forward that inlines the default transform for one parameter (the seeded C13-r4s1) must be told apart, and only by a case with a non-default class
+    mod, cfg = write_mc(wd, "params", (), tier=ck.tier, name="params_inline", inline=[("Beta", "scale")])
+    jobs.append(((mod, cfg), dict(name=PID + "/params_inline", dump=False, check=False, workers=1, timeout=600, coverage=False)))
+    # vacuity guard of the function-value decades: a conditional that floors log-probabilities 36 below the most likely class (the seeded C13-r4s2) must be told apart
+    mod, cfg = write_mc(wd, "condf", (), tier=ck.tier, name="condf_floor", cfloor=COND_FLOOR)
+    jobs.append(((mod, cfg), dict(name=PID + "/condf_floor", dump=False, check=False, workers=1, timeout=600, coverage=False)))
     res_all = tlc.run_many(jobs, parallel=3)
+    r_cfl = res_all.pop()
+    ck.add_tlc(r_cfl, "Quadrature condf with a conditional that floors log-probabilities at -36 (must violate)")
+    mm = re.search(r"CondNoFloorOK is violated by the initial state:.*?em \|-> (-?\d+)", r_cfl.stdout, re.S)
+    if not r_cfl.violation or r_cfl.violation["name"] != "CondNoFloorOK" or not mm or int(mm.group(1)) < 1:
+        ck.vacuous("the function-value lattice does not distinguish a conditional whose log-probabilities are floored at -36 (violation %r, decade of the counterexample %s)" % (
+            (r_cfl.violation or {}).get("name"), mm.group(1) if mm else None))
+    r_inl = res_all.pop()
+    ck.add_tlc(r_inl, "Quadrature params with a Beta forward that inlines the default transform of raw_scale (must violate)")
+    mm = re.search(r"ParamsThroughConstraintOK is violated by the initial state:.*?con \|-> \[scale \|-> \"(\w+)\"\]", r_inl.stdout, re.S)
+    if not r_inl.violation or r_inl.violation["name"] != "ParamsThroughConstraintOK" or not mm or mm.group(1) == "default":
+        ck.vacuous("the parameter lattice does not distinguish a forward that bypasses the registered constraint (violation %r, class in the counterexample %s)" % (
+            (r_inl.violation or {}).get("name"), mm.group(1) if mm else None))
     r_floor = res_all.pop()
     ck.add_tlc(r_floor, "Quadrature params with a forward that floors the parameters at 1e-4 (must violate)")
     mm = re.search(r"ParamsNoFloorOK is violated by the initial state:.*?members \|-> <<(.*?)>>,?\n", r_floor.stdout, re.S)      # (the harness keeps no trace for an initial state)
@@ -206,7 +234,22 @@ def run(ck):
     mixed = sum(1 for it in p_items if it["layout"] == "batch")
     if (lo, hi) != (DECADES[0], DECADES[-1]) or not mixed or len(f_items) != 2 * len(DECADES) or any((l, y) not in layouts for l in ("Laplace", "StudentT", "Beta") for y in ("scalar", "broadcast", "batch")):
         ck.vacuous("Quadrature params run: decades %s..%s, %d mixed batches, %d function-decade items, layouts %s" % (lo, hi, mixed, len(f_items), sorted(layouts)))
+    con_seen = {(it["lik"], p, cc["cls"], it["conhow"] if cc["cls"] != "default" else "ctor") for it in p_items for p, cc in it["con"].items()}
+    con_want = {(l, p, k, h) for l, ps in (("Laplace", ("noise",)), ("StudentT", ("noise", "deg_free")), ("Beta", ("scale",))) for p in ps for k in CON_CLASSES
+                for h in (CON_HOWS if k != "default" else ("ctor",))}
+    n_con = sum(1 for it in p_items if rp.nondefault(it))
+    if con_seen != con_want or not any(rp.nondefault(it) and it["layout"] == "batch" for it in p_items):
+        ck.vacuous("Quadrature params run: constraint classes missing from the lattice: %s" % sorted(con_want - con_seen))
     items += p_items + f_items
+    # ---- (6) the conditional over the whole range of the function values: every case of part "condf" -----------------------------------
+    cstates = rs["condf"].states()
+    c_items = rp.condf_items(cstates, ck.seed)
+    c_liks = {(it["lik"], it["mix"]) for it in c_items}
+    c_wrong = sum(1 for it in c_items if it["lik"] == "Softmax" for q in it["cases"] if q["cls"] == "confidently-wrong")
+    c_ems = {q["em"] for it in c_items for q in it["cases"]}
+    if c_liks != {("Bernoulli", False), ("Laplace", False), ("StudentT", False), ("Beta", False), ("Softmax", False), ("Softmax", True)} or not c_wrong or c_ems != set(F_DECADES):
+        ck.vacuous("Quadrature condf run: likelihoods %s, %d confidently misclassified Softmax cases, decades %s" % (sorted(c_liks), c_wrong, sorted(c_ems)))
+    items += c_items
     # ---- (b), (c), (d): reference comparisons -----------------------------------------------------------------------------------
     items += rp.cond_items(ck.seed, thorough)
     items += rp.bern_items(ck.seed, thorough)
@@ -225,7 +268,8 @@ def run(ck):
     ck.section("replay", **{"items_" + k: v for k, v in counts.items()})
     ck.section("tlc", moment_instances=len(exact), rule_states=len(rule_states), shape_cases=len(shape_cases), shape_cases_in_domain=n_ok,
                lattice_cells=len(cells), lattice_cells_decided=sum(1 for c in cells if c["decided"]), param_cases=len(pstates) - len(DECADES) ** 2 * 2, param_cases_mixed_batch=mixed,
-               param_decades="%d..%d" % (lo, hi), function_decade_cases=len(DECADES) ** 2 * 2, rediff_maximal_histories=len(hists),
+               param_decades="%d..%d" % (lo, hi), param_items_non_default_constraint=n_con, constraint_classes=len(CON_CLASSES), condf_cases=len(cstates),
+               condf_softmax_cases_confidently_wrong=c_wrong // len(rp.CONDF_LAYOUTS), function_decade_cases=len(DECADES) ** 2 * 2, rediff_maximal_histories=len(hists),
                rediff_histories_log_normal_cdf=routes["log_normal_cdf"], rediff_histories_bernoulli_elp=routes["bernoulli_elp"], rediff_passes_per_graph_max=BW_MAX)
     ck.rule = ("cases = (a) TLC's exact integral of every (m, s, integer polynomial) instance x every num_locs whose degree bound covers it x how the "
                "rule object is built (default dtype float64, through the setting, inside a likelihood, float32 nodes cast to double) x batch layout, plus "
@@ -236,7 +280,11 @@ def run(ck):
                "BernoulliLikelihood.expected_log_prob; (f) every case of the parameter lattice (part params): likelihood x every parameter at lower bound + 10^e, e = -6..2, x route (setter / "
                "initialize, tensor / float) x layout (scalar, one value broadcast over a batch, a batch mixing values >= MinSpread decades apart) x function shape, the "
                "parameters READ from the returned conditional and both integrals at placements without truncation error against closed forms (Laplace) / scale-equivariant "
-               "mpmath references (Student-t, Beta) at 1e-9, plus the Bernoulli marginal / expected_log_prob over function means +-10^e and variances 10^e; distinct = distinct abstract case; non-trivial = polynomial "
+               "mpmath references (Student-t, Beta) at 1e-9, x the CONSTRAINT class of every parameter (default, GreaterThan(b), Interval(a, b), exp transform; constructor argument or register_constraint): "
+               "value = that constraint's lower bound + 10^e, the returned distribution's parameters against the spec's value AND against what the public property reports, integrals against a fresh "
+               "default-constrained likelihood carrying the same values; (g) every case of part condf: likelihood (Bernoulli, Laplace, Student-t, Beta, Softmax with / without mixing weights) x |f| = 10^e, "
+               "e = -6..3 x sign / direction x observation class, all magnitudes in one tensor (flat and 2 x n): log_prob of the returned distribution and its gradient w.r.t. f against mpmath at 1e-9, "
+               "Softmax log-odds and the Laplace linear part / slope against the spec's exact rationals; plus the Bernoulli marginal / expected_log_prob over function means +-10^e and variances 10^e; distinct = distinct abstract case; non-trivial = polynomial "
                "degree >= 1 / a batched or broadcast shape / a non-default setting or batch / every reference comparison")
     ck.explanation = ("TLC is exhaustive over (i) the rational lattice of %d (m, s) points x %d integer polynomials (exact moments, recurrence = closed form = "
                       "Stein recurrence, central moments), (ii) the code-shaped rule for num_locs <= 3 on that lattice (exact to degree 2n-1, deficit "
@@ -245,7 +293,9 @@ def run(ck):
                       "BackwardOps.tla): every pass reads the context the forward stored; with a backward modelled as writing to ctx.denominator TLC finds the two-pass counterexample, "
                       "(vi) the parameter lattice (part params): every likelihood parameter at lower bound + 10^e over the whole documented valid range x set route x scalar / broadcast / "
                       "mixed-magnitude batch layout x function shape; the documented reading of the conditional's parameters is injective on the lattice (no clamp inside the valid range) "
-                      "and every result element reads exactly one member.  "
+                      "and every result element reads exactly one member; the constraint class of every parameter is a dimension of that lattice (the conditional reads each parameter through the registered constraint: "
+                      "a forward modelled as inlining the default transform is refuted by a non-default case), (vii) part condf: the function-value lattice |f| = 1e-6..1e3 of every conditional the library builds, with the exact "
+                      "Softmax log-odds (logit differences, unbounded: a conditional floored 36 below the most likely class is refuted) and the exact Laplace slope.  "
                       "Every TLC case is replayed into the real code against the spec's exact value.  "
                       "Everything else - truncation error on non-polynomial integrands, the accuracy of log_normal_cdf, conditional parameters, the probit "
                       "identity at real (m, v) - is a float64-vs-mpmath reference comparison on a fixed grid plus seeded samples; TLA+ only names the "
